@@ -150,6 +150,33 @@ func (c *stepClock) now() time.Time {
 	return time.Unix(0, v)
 }
 
+// c16Pre: options already in the RA when the plugin under test is applied (two times in five):
+// the same prefix as a Prefix Information / Route Information option with other lifetimes (a
+// wildcard listed earlier that expanded onto it), other prefixes, an MTU option.
+func c16Pre(r *vfh.Rand, pfx netip.Prefix) []ndp.Option {
+	if !r.Chance(2, 5) {
+		return nil
+	}
+	var pre []ndp.Option
+	other := netip.MustParsePrefix("2001:db8:ffff::/64")
+	for k := 1 + r.Intn(3); k > 0; k-- {
+		q := pfx
+		if r.Chance(1, 3) {
+			q = other
+		}
+		switch r.Intn(3) {
+		case 0:
+			pre = append(pre, &ndp.PrefixInformation{PrefixLength: uint8(q.Bits()), OnLink: true, AutonomousAddressConfiguration: true,
+				ValidLifetime: 24 * time.Hour, PreferredLifetime: 4 * time.Hour, Prefix: q.Addr()})
+		case 1:
+			pre = append(pre, &ndp.RouteInformation{PrefixLength: uint8(q.Bits()), Preference: ndp.Medium, RouteLifetime: 24 * time.Hour, Prefix: q.Addr()})
+		default:
+			pre = append(pre, ndp.NewMTU(1500))
+		}
+	}
+	return pre
+}
+
 func verifC16(t *testing.T, r *vfh.Rand, out *vfh.Out) {
 	n := vfh.N(5000, 300000)
 	for k := 0; k < n; k++ {
@@ -180,11 +207,20 @@ func verifC16(t *testing.T, r *vfh.Rand, out *vfh.Out) {
 			for i, ti := range ts {
 				c.I(ti)
 				clk.at(i)
-				ra := &ndp.RouterAdvertisement{}
-				if err := p.Apply(ra); err != nil || len(ra.Options) != 1 {
-					t.Fatalf("Prefix.Apply: %v (%d options)", err, len(ra.Options))
+				// the RA under construction already holds what the plugins listed before this one
+				// appended (Interface.RouterAdvertisement applies them in order) — possibly an option
+				// for the very same prefix, from a `::/64` wildcard expanding onto it
+				pre := c16Pre(r, p.Prefix)
+				ra := &ndp.RouterAdvertisement{Options: append([]ndp.Option(nil), pre...)}
+				if err := p.Apply(ra); err != nil {
+					t.Fatalf("Prefix.Apply: %v", err)
 				}
-				pi := ra.Options[0].(*ndp.PrefixInformation)
+				pi, ok := ra.Options[len(ra.Options)-1].(*ndp.PrefixInformation)
+				if len(ra.Options) != len(pre)+1 || !ok {
+					// the stanza's option is not what was appended: nothing is advertised for it
+					impl.I(-1).I(-1).N(clk.reads)
+					continue
+				}
 				impl.I(int64(pi.ValidLifetime)).I(int64(pi.PreferredLifetime)).N(clk.reads)
 			}
 			out.Line(c.String(), impl.String())
@@ -205,11 +241,16 @@ func verifC16(t *testing.T, r *vfh.Rand, out *vfh.Out) {
 			for i, ti := range ts {
 				c.I(ti)
 				clk.at(i)
-				ra := &ndp.RouterAdvertisement{}
-				if err := rt.Apply(ra); err != nil || len(ra.Options) != 1 {
-					t.Fatalf("Route.Apply: %v (%d options)", err, len(ra.Options))
+				pre := c16Pre(r, rt.Prefix)
+				ra := &ndp.RouterAdvertisement{Options: append([]ndp.Option(nil), pre...)}
+				if err := rt.Apply(ra); err != nil {
+					t.Fatalf("Route.Apply: %v", err)
 				}
-				ri := ra.Options[0].(*ndp.RouteInformation)
+				ri, ok := ra.Options[len(ra.Options)-1].(*ndp.RouteInformation)
+				if len(ra.Options) != len(pre)+1 || !ok {
+					impl.I(-1).N(clk.reads)
+					continue
+				}
 				impl.I(int64(ri.RouteLifetime)).N(clk.reads)
 			}
 			out.Line(c.String(), impl.String())
